@@ -325,6 +325,14 @@ Fixpoint exp_pkts (ws : list wiface) (ops : list wop) : list pkt :=
   | _ :: t => exp_pkts ws t
   end.
 
+(* the interfaces known after a script *)
+Fixpoint ws_after (ws : list wiface) (ops : list wop) : list wiface :=
+  match ops with
+  | [] => ws
+  | WAddIf w :: t => ws_after (ws ++ [w]) t
+  | _ :: t => ws_after ws t
+  end.
+
 Definition fuel_ok (F : nat) (ops : list wop) : Prop :=
   (12 < F)%nat /\
   Forall (fun op => match op with WPacket _ _ _ _ _ o => (length (popts_to_options o) + 2 < F)%nat | _ => True end) ops.
@@ -347,12 +355,14 @@ Lemma one_read ro F : ro_mixed ro = true -> forall ops ws s g tail,
   exists ws' s', sinv ws' s' /\
   match ops, exp_pkts ws ops with
   | _, [] => exec (readPacketG ro F g) s (enc_ops ops ++ tail) = exec (readPacketG ro F (g - length ops)) s' tail
+               /\ ws' = ws_after ws ops
   | _, p :: _ => exists t, exec (readPacketG ro F g) s (enc_ops ops ++ tail) = ((s', Ok p), enc_ops t ++ tail)
                   /\ ops_ok ws' t /\ fuel_ok F t /\ exp_pkts ws ops = p :: exp_pkts ws' t /\ (length t < length ops)%nat
+                  /\ ws_after ws' t = ws_after ws ops
   end.
 Proof.
   intros Hmix. induction ops as [|op t IH]; intros ws s g tail Hg Hs Hok HF.
-  - exists ws, s. split; [exact Hs|]. cbn [exp_pkts enc_ops map concat app length]. rewrite Nat.sub_0_r. reflexivity.
+  - exists ws, s. split; [exact Hs|]. cbn [exp_pkts enc_ops map concat app length ws_after]. rewrite Nat.sub_0_r. split; reflexivity.
   - destruct Hs as (Hbig & Hifs). destruct HF as (HF12 & HFp). inversion HFp as [|? ? HF1 HFt]; subst.
     destruct g as [|g]; [cbn in Hg; lia|]. cbn [length] in Hg.
     destruct op as [w|ifid ts caplen len data o|ifid st|ty pl]; cbn [ops_ok] in Hok; try contradiction.
@@ -365,9 +375,9 @@ Proof.
       destruct (IH (ws ++ [w]) s1 g tail Hg' Hs1 Hok (conj HF12 HFt)) as (ws' & s' & Hs' & R).
       exists ws', s'. split; [exact Hs'|]. fold (enc_ops t) in *.
       destruct (exp_pkts (ws ++ [w]) t) as [|p ps] eqn:Ep.
-      * rewrite E. destruct t; cbn [length Nat.sub] in *; exact R.
+      * rewrite E. cbn [ws_after]. destruct t; cbn [length Nat.sub] in *; exact R.
       * destruct t as [|op2 t2]; [cbn in Ep; discriminate|].
-        destruct R as (t' & R1 & R2 & R3 & R4 & R5). exists t'. rewrite E. split; [exact R1|]. split; [exact R2|]. split; [exact R3|]. split; [exact R4|]. cbn [length] in *. lia.
+        destruct R as (t' & R1 & R2 & R3 & R4 & R5 & R6). exists t'. rewrite E. split; [exact R1|]. split; [exact R2|]. split; [exact R3|]. split; [exact R4|]. split; [cbn [length] in *; lia|exact R6].
     + (* WritePacketWithOptions *)
       destruct Hok as (Hwf & Hok). cbn [exp_pkts enc_ops map concat enc_op]. rewrite <- app_assoc.
       rewrite <- Hifs in Hwf.
@@ -378,39 +388,40 @@ Proof.
       assert (if_link i = link_at ws ifid) as ->.
       { unfold link_at. rewrite Hifs, nth_error_map in Ei. destruct (nth_error ws (Z.to_nat ifid)); [|discriminate].
         cbn in Ei. inversion Ei. reflexivity. }
-      split; [reflexivity|]. split; [exact Hok|]. split; [exact (conj HF12 HFt)|]. split; [reflexivity|]. cbn [length]. lia.
+      split; [reflexivity|]. split; [exact Hok|]. split; [exact (conj HF12 HFt)|]. split; [reflexivity|]. split; [cbn [length]; lia|reflexivity].
 Qed.
 
 (* ---------------------------------------------------------------- the whole read loop over a script
    followed by a tail on which the packet read ends with class c whatever the interfaces *)
-Definition tail_ends (ro : ropts) (F : nat) (tail : list Z) (c : Z) : Prop :=
-  forall ws s g, sinv ws s -> (0 < g)%nat -> exists s'' l'', exec (readPacketG ro F g) s tail = ((s'', Err c), l'').
+Definition tail_ends (ro : ropts) (F : nat) (wsf : list wiface) (tail : list Z) (c : Z) : Prop :=
+  forall s g, sinv wsf s -> (0 < g)%nat -> exists s'' l'', exec (readPacketG ro F g) s tail = ((s'', Err c), l'').
 
-Lemma read_all_script ro F c tail : ro_mixed ro = true -> tail_ends ro F tail c ->
+Lemma read_all_script ro F wsf c tail : ro_mixed ro = true -> tail_ends ro F wsf tail c ->
   forall n ops ws s acc fuel,
   (length ops <= n)%nat -> (length ops < fuel)%nat -> (length ops < F)%nat ->
-  sinv ws s -> ops_ok ws ops -> fuel_ok F ops ->
+  sinv ws s -> ops_ok ws ops -> fuel_ok F ops -> ws_after ws ops = wsf ->
   exists s' l', run_d (read_all ro F fuel acc s) (enc_ops ops ++ tail) = ((rev acc ++ exp_pkts ws ops, c, s'), l').
 Proof.
-  intros Hmix Htail. induction n as [|n IH]; intros ops ws s acc fuel Hn Hfuel HFl Hs Hok HF.
-  - destruct ops; [|cbn in Hn; lia]. destruct fuel as [|f]; [cbn in Hfuel; lia|].
+  intros Hmix Htail. induction n as [|n IH]; intros ops ws s acc fuel Hn Hfuel HFl Hs Hok HF Hwa.
+  - destruct ops; [|cbn in Hn; lia]. destruct fuel as [|f]; [cbn in Hfuel; lia|]. cbn [ws_after] in Hwa. subst wsf.
     cbn [read_all enc_ops map concat app exp_pkts]. rewrite run_d_bind.
     change (run_d (readPacket ro F s) tail) with (exec (readPacketG ro F F) s tail).
-    destruct (Htail ws s F Hs ltac:(lia)) as (s'' & l'' & E). rewrite E. cbn [snd fst run_d cls_of].
+    destruct (Htail s F Hs ltac:(lia)) as (s'' & l'' & E). rewrite E. cbn [snd fst run_d cls_of].
     rewrite app_nil_r. eauto.
   - destruct fuel as [|f]; [lia|]. cbn [read_all]. rewrite run_d_bind.
     change (run_d (readPacket ro F s) (enc_ops ops ++ tail)) with (exec (readPacketG ro F F) s (enc_ops ops ++ tail)).
     destruct (one_read ro F Hmix ops ws s F tail HFl Hs Hok HF) as (ws' & s1 & Hs1 & R).
     destruct (exp_pkts ws ops) as [|p ps] eqn:Ep.
-    + rewrite R. destruct (Htail ws' s1 (F - length ops)%nat Hs1 ltac:(lia)) as (s'' & l'' & E). rewrite E.
+    + destruct R as (R & Rw). rewrite R. rewrite Rw, Hwa in Hs1.
+      destruct (Htail s1 (F - length ops)%nat Hs1 ltac:(lia)) as (s'' & l'' & E). rewrite E.
       cbn [snd fst run_d cls_of]. rewrite app_nil_r. eauto.
-    + destruct R as (t & R1 & R2 & R3 & R4 & R5). rewrite R1. cbn [snd fst].
-      destruct (IH t ws' s1 (p :: acc) f ltac:(lia) ltac:(lia) ltac:(lia) Hs1 R2 R3) as (s' & l' & E).
+    + destruct R as (t & R1 & R2 & R3 & R4 & R5 & R6). rewrite R1. cbn [snd fst].
+      destruct (IH t ws' s1 (p :: acc) f ltac:(lia) ltac:(lia) ltac:(lia) Hs1 R2 R3 ltac:(congruence)) as (s' & l' & E).
       rewrite E. inversion R4; subst. cbn [rev]. rewrite <- app_assoc. cbn [app]. eauto.
 Qed.
 
-Lemma tail_ends_nil ro F : tail_ends ro F [] 1.
-Proof. intros ws s g _ Hg. destruct g as [|g]; [lia|]. rewrite rpg_eof. eauto. Qed.
+Lemma tail_ends_nil ro F wsf : tail_ends ro F wsf [] 1.
+Proof. intros s g _ Hg. destruct g as [|g]; [lia|]. rewrite rpg_eof. eauto. Qed.
 
 (* ---------------------------------------------------------------- section header block, NewNgReader *)
 Definition shb_options (sec : secinfo) : list (Z * list Z) :=
@@ -616,7 +627,7 @@ Proof.
   { split; [lia|]. eapply Forall_impl; [|exact Sz2]. intros [] Ha; auto. unfold zlen in *. lia. }
   assert (zlen script = zlen ops + 1) as Hsl by (unfold script, zlen; cbn [length]; lia).
   assert (length script < F)%nat as HlF by (unfold zlen in *; lia).
-  destruct (read_all_script ro F 1 [] Hmix (tail_ends_nil ro F) (length script) script [] s0 [] F
-              (le_n _) HlF HlF (conj Q1 Q2) Hok Hfo) as (s' & l' & E).
+  destruct (read_all_script ro F _ 1 [] Hmix (tail_ends_nil ro F _) (length script) script [] s0 [] F
+              (le_n _) HlF HlF (conj Q1 Q2) Hok Hfo eq_refl) as (s' & l' & E).
   rewrite app_nil_r in E. rewrite E. cbn [fst snd run_d rev app]. repeat split; reflexivity.
 Qed.
